@@ -238,3 +238,139 @@ def check(model: Model, run: Run) -> None:
         if a == 'session':
             continue
         run.check(a in compared, eq.qualname, 'compares neighbor.%s (read by %s when the OPEN is built)' % (a, where), eq.loc(), 'a reload that changes only neighbor.%s yields a neighbor equal to the running one: Reactor.reload calls reconfigure() and the session keeps the capabilities of the OLD OPEN, so the routes of the new configuration that depend on it are not delivered as configured' % a)
+
+    # ------------------------------------------------------------------ R6 what _clear resets, the rollback puts back
+    run.rule(
+        'C17.R6',
+        'a failed reload changes nothing: every field Configuration._clear() empties before the parse is put back by '
+        '_rollback_reload() from the copy _clear() saved - not left empty, and not filled with what the parser had read before '
+        'the error',
+        floor=2,
+    )
+    cl = model.func(CONF + '._clear')
+    rb = model.func(CONF + '._rollback_reload')
+    run.analysed(cl)
+    run.analysed(rb)
+
+    def self_assigns(f) -> list[tuple[str, ast.AST, ast.Assign]]:  # noqa: ANN001
+        out = []
+        for n in f.node.body:
+            if isinstance(n, ast.Assign) and len(n.targets) == 1:
+                d = dotted(n.targets[0]) or ''
+                if d.startswith('self.') and d.count('.') == 1:
+                    out.append((d[5:], n.value, n))
+        return out
+
+    def is_empty(v: ast.AST) -> bool:
+        return (isinstance(v, (ast.Dict, ast.List, ast.Set, ast.Tuple)) and not (getattr(v, 'keys', None) or getattr(v, 'elts', None))) or (isinstance(v, ast.Call) and not v.args and isinstance(v.func, ast.Name) and v.func.id in ('dict', 'list', 'set'))
+
+    ca = self_assigns(cl)
+    saved: dict[str, str] = {}  # field -> where _clear saved it
+    for name, v, _ in ca:
+        d = dotted(v) or ''
+        if d.startswith('self.') and d.count('.') == 1:
+            saved[d[5:]] = name
+    resets = [name for name, v, _ in ca if is_empty(v)]
+    ra = {name: v for name, v, _ in self_assigns(rb)}
+    n6 = 0
+    for fld in resets:
+        if fld in saved.values():
+            continue  # a place where something is saved, not state of its own
+        n6 += 1
+        got = ra.get(fld)
+        if fld not in saved:
+            # scratch state (reset to the same empty value by the rollback) is fine; anything else was not saved
+            okf = got is not None and is_empty(got)
+            why = 'it is emptied by _clear() without a saved copy and the rollback sets it to %s' % (norm(got) if got is not None else 'nothing')
+        else:
+            okf = got is not None and dotted(got) == 'self.' + saved[fld]
+            why = '_clear() saves it in self.%s but the rollback sets it to %s' % (saved[fld], norm(got) if got is not None else 'nothing')
+        run.check(
+            okf,
+            rb.qualname,
+            'self.%s is put back as it was' % fld,
+            rb.loc(),
+            '%s: after a reload that fails (syntax error anywhere in the file) self.%s is not what it was before - for `processes` the '
+            'main loop then calls Processes.start(configuration.processes), which terminates every API process that is not in that '
+            'partial table, so a typo in the file kills the API' % (why, fld),
+        )
+    if n6 < 2:
+        run.cannot('only %d fields reset by Configuration._clear()' % n6)
+
+    # ------------------------------------------------------------------ R7 the parser starts clean
+    run.rule(
+        'C17.R7',
+        'a failed reload leaves nothing behind in the parser: the section parsers keep what they read (neighbors, scope) until '
+        '_cleanup(), so either the rollback cleans them or every parse starts with _cleanup() - otherwise the next reload of a '
+        'correct file fails with "duplicate peer definition" for ever',
+        floor=1,
+    )
+    cfg7 = CFG(rl.node)
+    parse_calls = model.calls_to(mod, rl.node, 'Configuration._parse_configuration')
+    clean_calls = model.calls_to(mod, rl.node, 'Configuration._cleanup')
+    rb_cleans = bool(model.calls_to(rb.module, rb.node, 'Configuration._cleanup'))
+    cl_cleans = bool(model.calls_to(cl.module, cl.node, 'Configuration._cleanup'))
+    ok7 = rb_cleans
+    if not ok7 and parse_calls:
+        tgt = {cfg7.stmt_node_containing(c).id for c in clean_calls if cfg7.stmt_node_containing(c) is not None}
+        if cl_cleans:
+            tgt |= {cfg7.stmt_node_containing(c).id for c in model.calls_to(mod, rl.node, 'Configuration._clear') if cfg7.stmt_node_containing(c) is not None}
+        pn = cfg7.stmt_node_containing(parse_calls[0])
+        if pn is not None and tgt:
+            ok7, _ = cfg7.all_paths_pass(cfg7.entry.id, tgt, {pn.id})
+    run.check(
+        ok7,
+        rl.qualname,
+        'the parser state of a failed reload is dropped (by the rollback, or by _cleanup() before the next parse)',
+        rl.loc(parse_calls[0]) if parse_calls else rl.loc(),
+        '_cleanup() runs only in _commit_reload(): after a reload that failed once at least one neighbor had been parsed, ParseNeighbor '
+        'still holds that neighbor and every later reload - of a perfectly good file - is refused with "duplicate peer definition"',
+    )
+
+    # ------------------------------------------------------------------ R8 parsing does not touch the running sessions
+    run.rule(
+        'C17.R8',
+        'nothing a section parser does before the commit reaches the tables of a running session: no pre() / post() / parse() of a '
+        'configuration section reaches a mutator of the shared RIB (OutgoingRIB.add_to_rib*, del_from_rib*, RIB.enable / reset / '
+        'clear) - the new Neighbor gets the SAME OutgoingRIB as the established one (RIB._cache), so what is queued there goes to '
+        'the peer even when the reload fails later in the file',
+        floor=20,
+    )
+    from .common import CallGraph
+
+    cg = CallGraph(model)
+    SEC = 'exabgp.configuration.core.section.Section'
+    roots = []
+    for q in sorted(model.all_subclasses(SEC) | {SEC}):
+        ci = model.classes.get(q)
+        if ci is not None:
+            roots += [ci.methods[nm].qualname for nm in ('pre', 'post', 'parse') if nm in ci.methods]
+    if len(roots) < 20:
+        run.cannot('only %d section parser entry points found' % len(roots))
+    MUT = ('add_to_rib', 'add_to_rib_watchdog', 'del_from_rib', 'del_from_rib_watchdog', 'enable', 'reset', 'clear', 'replace_reload', 'replace_restart')
+    reported: set[tuple[str, str]] = set()
+    for r in roots:
+        pred = cg.reachable([r])
+        hits = sorted(q for q in pred if q.startswith('exabgp.rib.') and q.rsplit('.', 1)[-1] in MUT and q.split('.')[-2] in ('OutgoingRIB', 'RIB', 'IncomingRIB'))
+        if not hits:
+            run.ok('%s: no path to the shared RIB' % short(r))
+            continue
+        # one report per entry point and per first RIB function on the path
+        firsts: dict[str, list[str]] = {}
+        for h in hits:
+            path = cg.path(pred, h)
+            first = next(x for x in path if x.startswith('exabgp.rib.'))
+            firsts.setdefault(first, path[: path.index(first) + 1])
+        for first, path in sorted(firsts.items()):
+            if (r, first) in reported:
+                continue
+            reported.add((r, first))
+            run.violation(
+                r,
+                'a section parser reaches %s' % short(first),
+                model.funcs[r].loc(),
+                'path %s: it runs while the file is still being parsed, on the RIB the established session reads; when a later '
+                'section has an error the reload is rolled back but these routes / this reset have already happened' % ' -> '.join(short(x) for x in path),
+                [],
+            )
+
